@@ -54,6 +54,11 @@ def run_case(kind, d, tier):
             rc, out = sh([os.path.join(VERIF, "bin", "check"), c, tier], cwd=VERIF, env=e, timeout=7200)
             res["checks"][c] = {"rc": rc, "mechanisms": sorted(set(re.findall(r'"mechanism": "([^"]+)"', out)))[:5], "inconclusive": re.findall(r"INCONCLUSIVE[^\n]*", out)[:2]}
             shutil.rmtree(ev, ignore_errors=True)
+            if (kind == "benign") != (rc == 1) and rc != 0 or (kind == "benign" and rc != 0):
+                # unexpected result: keep the whole output for inspection
+                os.makedirs("/tmp/selftest-logs", exist_ok=True)
+                with open(f"/tmp/selftest-logs/{name}-{c}.log", "w", encoding="utf-8") as fp:
+                    fp.write(out)
         if kind == "benign":
             res["ok"] = res["tests_passed"] >= 362 and all(v["rc"] == 0 for v in res["checks"].values())
         else:
@@ -86,7 +91,7 @@ def main():
             ok = r.get("ok")
             bad += 0 if ok else 1
             brief = {c: (v["rc"], v["mechanisms"][:2] or v["inconclusive"][:1]) for c, v in r.get("checks", {}).items() if (r["kind"] != "benign" or v["rc"] != 0)}
-            print(("OK  " if ok else "FAIL"), r["kind"], r["name"], "tests", r.get("tests_passed"), r.get("error", ""), json.dumps(brief)[:400], flush=True)
+            print(("OK  " if ok else "FAIL"), r["kind"], r["name"], "tests", r.get("tests_passed"), r.get("error", ""), json.dumps(brief)[:1500], flush=True)
     print(f"{len(cases)} cases, {bad} failed")
     return 1 if bad else 0
 
